@@ -114,15 +114,15 @@ func init() {
 		QuickBudget: 8 * time.Minute, ThoroughBudget: 20 * time.Minute,
 	}
 	checks["C16"] = &CheckDef{
-		Pkgs:        []string{"./component/outbound"},
-		Harness:     []string{"component/outbound/dialer:Verif_C16_thresholds", "component/outbound/dialer:Verif_C16_shared_node", "component/outbound/dialer:Verif_C16_suppression", "component/outbound/dialer:Verif_C16_snapshot", "component/outbound/dialer:Verif_C16_escalation"},
+		Pkgs:        []string{"./component/outbound", "./control"},
+		Harness:     []string{"component/outbound/dialer:Verif_C16_thresholds", "component/outbound/dialer:Verif_C16_shared_node", "component/outbound/dialer:Verif_C16_suppression", "component/outbound/dialer:Verif_C16_snapshot", "component/outbound/dialer:Verif_C16_escalation", "control:Verif_C16_shared_floor"},
 		MaxIter:     400,
 		Level:       "other",
 		LevelText:   "The real health state machine of dialer.Dialer (markAvailable, markUnavailableInternal, markAvailableTraffic, ReportUnavailable*, ReportAvailableTraffic, informDialerGroupUpdate, notifyAliveTransition, RegisterAliveDialerSet) together with the real AliveDialerSet is executed from counters holding an arbitrary number of consecutive failures below the thresholds, through histories of arbitrary events in each of the seven network types; a three-field monitor written from the statement (consecutive probe failures, consecutive traffic failures, alive; thresholds 1/3/10/50) is compared after every event, as are transition callbacks (edges only), what each group containing the node sees, and the latency group's kernel connectivity bit. Reload muting (Begin/EndReloadProxyFailureSuppression) and snapshot/restore are checked with the same objects. Also the documented escalation with the real per-address tracker (recordProxyFailure / recordProxySuccess, markUnavailableFromProxyFailure): probe histories over three domains of a proxy node - every unforced death counts towards the address, any successful probe clears the count, the third death without a success in between takes all six domains down; all six domains are compared with the model after every event.",
 		LevelNote:   "Trusted: go/ssa, executor, z3, the monitor in the harness. NotifyHealthCheckResult (recovery back-off, sticky-IP cache) and the recovery manager's snapshot are stubbed out; probes are represented by the calls Dialer.check makes on success/failure; one node (plus a second in the shared-node harness). The connectivity map write (key = outbound*6+domain*2+family) is C19's subject; here the group callback is the observable.",
 		Technique:   techniqueText,
 		Explanation: "Bounded symbolic execution of the dialer health state machine against a threshold monitor.",
-		Bounds:      map[string]string{"quick": "thresholds: 7 network types x arbitrary initial consecutive-failure counts x 3 events of 7 kinds; shared node: 6 types x 3 events of 4 kinds, 2 groups; suppression: nested scopes, 3 muted failures then forced; snapshot: 6 arbitrary alive flags and counts", "thorough": "thresholds with 4 events"},
+		Bounds:      map[string]string{"quick": "thresholds: 7 network types x arbitrary initial consecutive-failure counts x 3 events of 7 kinds; shared node: 6 types x 3 events of 4 kinds, 2 groups; suppression: nested scopes, 3 muted failures then forced; snapshot: 6 arbitrary alive flags and counts; shared_floor: reload hand-over over 2 groups sharing a node (3 nodes, arbitrary dead flags for tcp4, either group order)", "thorough": "thresholds with 4 events"},
 		Outside:     []string{"proxy-address escalation beyond the escalation harness (3 health domains of one node, 4 events quick / 5 thorough; the 10-minute window does not expire in it)", "probe I/O, recovery back-off timers", "EnsureReloadSelectionFloor (group level)"},
 		Assumptions: []string{"NotifyHealthCheckResult is a no-op", "latency of a successful probe 1ns..5s"},
 		QuickBudget: 8 * time.Minute, ThoroughBudget: 20 * time.Minute,
